@@ -1036,6 +1036,9 @@ class VN:
         if attr == "extend" and kbase is not None and is_tuple(st.env.get(kbase)) and is_tuple(args[0]):
             st.env[kbase] = st.env[kbase] + args[0]
             return NONE
+        if attr == "extend" and kbase is not None and len(args) == 1 and (is_tuple(st.env.get(kbase)) or (isinstance(st.env.get(kbase), T.Poly) and is_seq(st.env[kbase]))):
+            st.env[kbase] = concat(st.env[kbase], args[0])   # x.extend(y) is x += y for a list
+            return NONE
         if attr == "format":
             return T.sym("<str>", real=True)
         return None
@@ -1171,6 +1174,8 @@ class VN:
             return tuple((T.const(i), x) for i, x in enumerate(a0))
         if short == "reversed" and is_tuple(a0):
             return tuple(reversed(a0))
+        if short == "sorted" and is_tuple(a0) and len(args) == 1 and not kw and all(isinstance(x, T.Poly) and x.as_fraction() is not None for x in a0):
+            return tuple(sorted(a0, key=lambda x: x.as_fraction()))   # a tuple of known numbers
         if short == "reversed" and isP and not kw and len(args) == 1:
             return T.app("getitem", a0, REVERSE)  # same elements as seq[::-1]
         if short in ("any", "all") and is_tuple(a0) and len(args) == 1 and not kw and all(isinstance(x, T.Poly) for x in a0) \
